@@ -17,12 +17,13 @@ LEVEL = "exploration"
 VARIANTS = ("plain", "asan")
 EVAL_RUNS = True
 RULE = ("generated programs of 1-60 statements (data of k bytes/words with k from {1,2,3,255..257,510..514,1023..1025,"
-        "4095..4097,65534..65537} and random, reservations, ORG forward/backward/overlapping, SEGMENT, CPU switches "
-        "between byte-, word- and 4-byte-granular targets, END addr, zero-length statements) x knob settings "
-        "(private code buffer 1..4096 via hook H3, stdio buffer unbuffered..64K, source read chunking); plus every "
-        "golden program under 3-12 knob settings. non-trivial = >=1 private-buffer flush inside a record, a record "
-        "split at 64 KiB, or an overwritten empty record (measured from the write log / parsed file); distinct by "
-        "(program, knobs) content hash")
+        "4095..4097,65534..65537} and random, strings, ALIGN with and without fill value, BINCLUDE with offset/length, reservations, "
+        "ORG forward/backward/overlapping, SEGMENT with and without ORG, CPU switches between 12 byte-, word- and 4-byte-granular "
+        "targets of both byte orders with and without ORG, no CPU statement at all (-cpu / built-in default), END addr, zero-length "
+        "statements; 40% of the programs with blocks wrapped in INCLUDE / nested INCLUDE / MACRO / REPT / IRP / IF / SECTION / PHASE / "
+        "LISTING) x knob settings (private code buffer 1..4096 via hook H3, stdio buffer unbuffered..64K, source read chunking); plus "
+        "every golden program under 3-12 knob settings. non-trivial = >=1 private-buffer flush inside a record, a record split at "
+        "64 KiB, or an overwritten empty record (measured from the write log / parsed file); distinct by (program, knobs) content hash")
 COMPONENTS = {"real": ["asl: all repository code incl. hook H3 (code-buffer size)", "p2bin (golden corpus rendering)"],
               "stubbed": ["storage below FILE* (records every write/seek)", "clock", "environment", "cwd"],
               "untouched": ["glibc stdio", "libm"]}
@@ -47,6 +48,7 @@ TARGETS = {
 }
 SEGNUM = {"code": 1, "data": 2, "idata": 3, "xdata": 4}
 SEGLIMIT_8051 = {"code": 0xFFFF, "xdata": 0xFFFF, "idata": 0xFF, "data": 0x7F}
+BLOB = bytes((i * 37 + 11) & 0xFF for i in range(520))  # file read by BINCLUDE statements
 LENS = [1, 2, 3, 255, 256, 257, 510, 511, 512, 513, 514, 1023, 1024, 1025, 4095, 4096, 4097]
 BIGLENS = [65534, 65535, 65536, 65537]
 
@@ -118,7 +120,7 @@ def gen_program(rng, big=False):
     for _ in range(n):
         t = TARGETS[m.cpu]
         room = limit() - m.pc()
-        k = rng.below(12)
+        k = rng.below(13)
         if k <= 5:
             # data
             if big and rng.chance(0.25):
@@ -239,6 +241,45 @@ def gen_program(rng, big=False):
                 org(rng.below(min(lim, 30000)))
         elif k == 10:
             L.append(rng.choice(["", "; comment", "lbl%d:" % len(L), "\tlisting on"]))
+        elif k == 11:
+            room = limit() - m.pc()
+            sub = rng.below(3)
+            if sub == 0 and room > 40:
+                # ALIGN: reservation up to the next multiple, or fill bytes when a fill value is given
+                n = rng.choice([2, 4, 8, 16, 3, 256])
+                gap = (-m.pc()) % n
+                if gap >= room:
+                    continue
+                if rng.chance(0.5):
+                    fill = rng.below(256)
+                    L.append("\talign %d,%d" % (n, fill))
+                    if gap:
+                        m.emit([fill] * (gap * t["gran"]))
+                        total += gap * t["gran"]
+                else:
+                    L.append("\talign %d" % n)
+                    m.reserve(gap)
+            elif sub == 1 and t["gran"] == 1 and room > 40 and "byte" in t:
+                txt = "".join(rng.choice("AbCxyz 019_+") for _ in range(rng.randint(1, 30)))
+                stmt = {"6809": "fcc", "6811": "fcc"}.get(m.cpu, t["byte"])
+                L.append("\t%s \"%s\"" % (stmt, txt))
+                m.emit([ord(c) for c in txt])
+                total += len(txt)
+            elif sub == 2 and t["gran"] == 1 and room > 600:
+                off = rng.choice([0, 0, 1, 100, 255, 500])
+                ln = rng.choice([1, 2, 16, 255, 256, 257, 511, 512])
+                ln = min(ln, len(BLOB) - off)
+                form = rng.below(3)
+                if form == 0:
+                    L.append("\tbinclude \"blob.bin\",%d,%d" % (off, ln))
+                elif form == 1:
+                    ln = len(BLOB) - off
+                    L.append("\tbinclude \"blob.bin\",%d" % off)
+                else:
+                    off, ln = 0, len(BLOB)
+                    L.append("\tbinclude \"blob.bin\"")
+                m.emit(list(BLOB[off:off + ln]))
+                total += ln
     if rng.chance(0.3):
         m.entry = rng.below(min(limit(), 60000) + 1)
         L.append("\tend %d" % m.entry)
@@ -258,7 +299,7 @@ def scenario(src, knobs, extra_disk=None, argv=None, cwd="/w"):
     env = {"LANG": "C"}
     if knobs.get("codebuf"):
         env["ASL_VERIF_CODEBUF"] = str(knobs["codebuf"])
-    disk = {"/w/a.asm": src} if src is not None else {}
+    disk = {"/w/a.asm": src, "/w/blob.bin": BLOB} if src is not None else {}
     if extra_disk:
         disk.update(extra_disk)
     return dict(argv=argv or ["-q", "a.asm"], cwd=cwd, disk=disk, env=env, stdio_buf=knobs.get("stdio_buf", 0),
@@ -331,7 +372,7 @@ def wrap(lines, seed):
                 j += 1
             block = lines[i:j]
             kind = rng.choice(WRAP_KINDS)
-            has_ctl = any(b.split()[0] in ("org", "segment") for b in block)
+            has_ctl = any(b.split()[0] in ("org", "segment", "align") for b in block)  # ALIGN works on the phased address
             if kind == "phase" and has_ctl:
                 kind = "if1"
             k += 1
@@ -477,6 +518,23 @@ def rebuild_model(lines):
             m.entry = int(arg)
             continue
         t = TARGETS[m.cpu]
+        if op == "align":
+            n, _, fill = arg.partition(",")
+            gap = (-m.pc()) % int(n)
+            if fill:
+                m.emit([int(fill)] * (gap * t["gran"]))
+            else:
+                m.reserve(gap)
+            continue
+        if op == "binclude":
+            parts = arg.split(",")
+            off = int(parts[1]) if len(parts) > 1 else 0
+            ln = int(parts[2]) if len(parts) > 2 else len(BLOB) - off
+            m.emit(list(BLOB[off:off + ln]))
+            continue
+        if arg.startswith('"') and op in (t.get("byte"), "fcc"):
+            m.emit([ord(c) for c in arg[1:-1]])
+            continue
         if op == t["res"]:
             m.reserve(int(arg))
         elif "unit" in t and op == t["unit"][0]:
